@@ -88,7 +88,7 @@ def _find_lcas(
     c1: ObjectID,
     c2s: Sequence[ObjectID],
     lookup_stamp: Callable[[ObjectID], int],
-    min_stamp: int = 0,
+    min_stamp: int | None = None,
     shallows: set[ObjectID] | None = None,
 ) -> list[ObjectID]:
     """Find lowest common ancestors between commits.
@@ -98,7 +98,7 @@ def _find_lcas(
         c1: First commit
         c2s: List of second commits
         lookup_stamp: Function to get commit timestamp
-        min_stamp: Minimum timestamp to consider
+        min_stamp: Minimum timestamp to consider (None: no cut-off)
         shallows: Set of shallow commits
 
     Returns:
@@ -197,7 +197,7 @@ def _find_lcas(
                     if shallows is not None and shallows:
                         continue
                     raise
-                if pdt < min_stamp:
+                if min_stamp is not None and pdt < min_stamp:
                     continue
                 cstates[pcmt] = pflags | cflags
                 wlst.add((pdt, pcmt))
